@@ -12,6 +12,8 @@ package main
 //       - "<local>" for a local identifier, "<const>" for a literal, "=<text>" for a string literal in the
 //         security-scheme switch, "<make>" for `make(…)`, "<call>" for other calls on non-source values;
 //   * fields tagged `json:"-"` (Extensions) are skipped;
+//   * `ref2To3` and `bodyParamNameRows`: the string literals of the package-level variables `ref2To3` (prefix map of
+//     ToV3Ref / FromV3Ref) and `attemptedBodyParameterNames`;
 //   * `<fn>Assigned` lists (ToV3SchemaRef, FromV3SchemaRef, ToV3Operation, FromV3Operation): the JSON keys of the fields of the destination
 //     variable that statements of the function assign outside the literal (`v.F = …`, `v.F, _ = …`,
 //     `v.F[k] = …`), in source order without repetition — the typed fields (discriminator, items, …).
@@ -351,6 +353,57 @@ func (c *ctx17) assignedFields(fnName, dstVar, dstType string) []string {
 	return out
 }
 
+// stringVar reads a package-level `var name = map[string]string{…}` (rows key → value, source order) or
+// `var name = []string{…}` (rows element → "") whose keys / elements are string literals.
+func (c *ctx17) stringVar(f *ast.File, name string) []row17 {
+	for _, d := range f.Decls {
+		gd, ok := d.(*ast.GenDecl)
+		if !ok || gd.Tok != token.VAR {
+			continue
+		}
+		for _, sp := range gd.Specs {
+			vs, ok := sp.(*ast.ValueSpec)
+			if !ok || len(vs.Names) != 1 || vs.Names[0].Name != name || len(vs.Values) != 1 {
+				continue
+			}
+			cl, ok := vs.Values[0].(*ast.CompositeLit)
+			if !ok {
+				c.unrec = append(c.unrec, "var "+name+": not a composite literal")
+				return nil
+			}
+			lit := func(e ast.Expr) (string, bool) {
+				bl, ok := e.(*ast.BasicLit)
+				if !ok || bl.Kind != token.STRING {
+					return "", false
+				}
+				return strings.Trim(bl.Value, `"`), true
+			}
+			var rows []row17
+			for _, el := range cl.Elts {
+				if kv, ok := el.(*ast.KeyValueExpr); ok {
+					k, ok1 := lit(kv.Key)
+					v, ok2 := lit(kv.Value)
+					if !ok1 || !ok2 {
+						c.unrec = append(c.unrec, "var "+name+": element is not a pair of string literals")
+						continue
+					}
+					rows = append(rows, row17{k, v})
+					continue
+				}
+				v, ok := lit(el)
+				if !ok {
+					c.unrec = append(c.unrec, "var "+name+": element is not a string literal")
+					continue
+				}
+				rows = append(rows, row17{v, ""})
+			}
+			return rows
+		}
+	}
+	c.unrec = append(c.unrec, "var "+name+" not found")
+	return nil
+}
+
 func leanStr(s string) string {
 	return `"` + strings.ReplaceAll(strings.ReplaceAll(s, `\`, `\\`), `"`, `\"`) + `"`
 }
@@ -382,6 +435,8 @@ func extractCopyTables(repo string) (string, error) {
 		{"fromV3SecTable", c.secBackTable()},
 		{"toV3OpTable", c.litTable("ToV3Operation", "openapi3.Operation", "operation", "openapi2.Operation")},
 		{"fromV3OpTable", c.litTable("FromV3Operation", "openapi2.Operation", "operation", "openapi3.Operation")},
+		{"ref2To3", c.stringVar(f, "ref2To3")},
+		{"bodyParamNameRows", c.stringVar(f, "attemptedBodyParameterNames")},
 	}
 	var b strings.Builder
 	b.WriteString("-- generated by go/cmd/extract (table CopyTables) from openapi2conv/openapi2_conv.go — do not edit\n")
